@@ -32,6 +32,8 @@ var c18Items = []c18Item{
 	{text: "r\"x\ny\""},
 	{text: "# c\n", off: 1, cmt: true},
 	{text: "# c", off: 1, cmt: true, last: true},
+	{text: "# c\r\n", off: 1, cmt: true},
+	{text: "# c\rd\n", off: 1, cmt: true},
 	{text: "/* c */", off: 2, cmt: true},
 	{text: "/* c\nd */", off: 2, cmt: true},
 }
